@@ -1,12 +1,53 @@
 import SJ.Proofs.GoNumberLemmas
 set_option linter.unusedVariables false
 set_option linter.unusedSimpArgs false
+/-
+GoNumber — the hand model of `Model/Number.lean` (`parseNumber` with `numScan`, `isValidTrueAtom`, `isValidFalseAtom`,
+`isValidNullAtom`, on which the C01/C03 theorems of `Proofs/Number.lean` rest) IS the meaning of the syntax trees the
+translator printed from `/repo/parse_number.go` (l.65-135) and `/repo/stage2_build_tape_amd64.go` (l.126-160):
+`Generated/GoSrc.lean`: `goparseNumber`, `goisValidTrueAtom`, `goisValidFalseAtom`, `goisValidNullAtom`.
+
+The Go functions take the slice `buf[start:]`; the model takes the whole buffer and a start index.  For EVERY `buf`,
+EVERY `start` (no `start ≤ buf.size` needed: beyond the end the slice is empty and both sides say false / `0, 0`),
+every fuel (0 included: `range` consumes none), the store `[("buf", .bytes (buf.extract start buf.size))]`, every tape:
+
+  `trueAtom_sim`, `falseAtom_sim`, `nullAtom_sim` : `runFun … = .ret s [.bool (isValid…Atom buf start)]`, `s.tape = tape`
+  `parseNumber_sim`      : `runFun … = .ret s (enc (parseNumber buf start))`, `s.tape = tape`
+                           (`enc none = [0, 0]`, `enc (some (id, val)) = [id, val]`)
+  `parseNumber_some_iff` : `parseNumber buf start = some (id, val)` ⇔ `id ≠ 0` ∧ the interpreter returns `[id, val]`
+  `parseNumber_none_iff` : `parseNumber buf start = none` ⇔ the interpreter returns `[0, 0]`
+  `parseNumber_run`, `parseNumber_total` : the same for an arbitrary slice `b`; never `panic`, `stuck`, `diverge`
+  `go_number_source_tie` : the bundle.
+
+NO extra hypothesis was needed.  In particular the slice may be empty: the loop body never runs, `pos == 0` returns
+`0, 0` before `buf[0]` is evaluated (see the `example`s).  Every index expression is shown in range where it is evaluated:
+* `buf[i+1]` in the loop: behind the lazy `len(buf) < i+2 ||` (`loop_step`, case `xs ≠ []`);
+* `buf[0]` (twice), `buf[:pos]` (three times): `1 ≤ pos ≤ len(buf)` — `pos ≤ len(buf)` is part of the loop invariant
+  (`scan_loop`), `pos ≠ 0` from the test after the loop;
+* `buf[1]` behind the lazy `pos > 2 &&`; `buf[first]`, `buf[first+1]` behind the lazy `pos > first+1 &&`.
+The model reads with `getD … 0`; on all these paths the index is in range, so the default is never used where Go would panic.
+
+Route.  `scan_loop`: `execRangeI` over the bytes of the slice = `NumberProofs.scan` (the pure recursive scan to which
+`numScan` is proved equal in `Proofs/Number.lean`), by induction over the remaining bytes with an abstract store
+(invariant: `buf`, `pos = k`, `found`, `k ≤ len`); `int_sim`: the integer branch either returns what `NumberProofs.core`
+returns or falls through with `floatTag = ft` such that `core … = floatPath … ft` (the model's `tag1`/`flagged`
+book-keeping = Go's `floatTag |= 1`, including `flagged ||| 1 = flagged`); `float_sim`: the float path; `tail_sim`,
+`parseNumber_run`: assembly; `NumberProofs.parseNumber_eq` brings the statement back to `parseNumber buf start`.
+
+Idealisations checked and found to AGREE EXACTLY with the source (no difference found):
+* `found` is a `uint8` in Go, an unbounded `Nat` in the model: every rune class is `< 256` and `|`/`&` commute with `toNat`.
+* `le32`/`le64` (sums) vs `binary.LittleEndian.Uint32/64` (or-ed shifts): `leU32_suffix`, `leU64_suffix`; the masked
+  comparison `error |= (locval & mask5) ^ fv; error == 0` vs the model's `&&`: `false_word`.
+* `isFollow` (default 1 beyond the table) vs the table look-up of a byte (256 entries): `follow_tbl`.
+* `uint64(i64)` = `ofInt64`; the tag words `uint64(Tag…) << 56` = `mkWord tag… 0`.
+An edit of one of the four Go functions changes a generated definition and breaks the corresponding proof.
+-/
 namespace SJ.GoNumber
 open SJ SJ.GoSem SJ.Generated SJ.Tables
 
 attribute [local simp] exec exec1 execCases evalE evalEs Env.get Env.set isOneOf binop convert ofE runFun tblLookup
 
-theorem trueAtom_sim (buf : Bytes) (start : Nat) (hs : start ≤ buf.size) (fuel : Nat) (tape : Array UInt64) :
+theorem trueAtom_sim (buf : Bytes) (start : Nat) (fuel : Nat) (tape : Array UInt64) :
     ∃ s, runFun goFuns goisValidTrueAtom fuel ⟨[("buf", .bytes (buf.extract start buf.size))], tape⟩ =
       .ret s [.bool (isValidTrueAtom buf start)] ∧ s.tape = tape := by
   simp only [goisValidTrueAtom, isValidTrueAtom]
@@ -28,7 +69,7 @@ theorem trueAtom_sim (buf : Bytes) (start : Nat) (hs : start ≤ buf.size) (fuel
   · have h5i : ¬ (5 : Int) ≤ ((buf.size - start : Nat) : Int) := by omega
     simp [h5, h5i]
 
-theorem nullAtom_sim (buf : Bytes) (start : Nat) (hs : start ≤ buf.size) (fuel : Nat) (tape : Array UInt64) :
+theorem nullAtom_sim (buf : Bytes) (start : Nat) (fuel : Nat) (tape : Array UInt64) :
     ∃ s, runFun goFuns goisValidNullAtom fuel ⟨[("buf", .bytes (buf.extract start buf.size))], tape⟩ =
       .ret s [.bool (isValidNullAtom buf start)] ∧ s.tape = tape := by
   simp only [goisValidNullAtom, isValidNullAtom]
@@ -59,7 +100,7 @@ theorem false_word (e : UInt64) (n : Nat) (hn : n < 2^64) :
   rw [show catomFalseMask = 1099511627775 from rfl, show catomFalse = 435728179558 from rfl, ← this]
   rfl
 
-theorem falseAtom_sim (buf : Bytes) (start : Nat) (hs : start ≤ buf.size) (fuel : Nat) (tape : Array UInt64) :
+theorem falseAtom_sim (buf : Bytes) (start : Nat) (fuel : Nat) (tape : Array UInt64) :
     ∃ s, runFun goFuns goisValidFalseAtom fuel ⟨[("buf", .bytes (buf.extract start buf.size))], tape⟩ =
       .ret s [.bool (isValidFalseAtom buf start)] ∧ s.tape = tape := by
   simp only [goisValidFalseAtom, isValidFalseAtom]
@@ -462,11 +503,16 @@ theorem floatPath_id {L : List UInt8} {p : Nat} {tag id v : UInt64}
     (h : NumberProofs.floatPath L p tag = some (id, v)) : id = tag := by
   unfold NumberProofs.floatPath at h
   simp only [] at h
-  split at h
-  · cases h
-  · split at h
-    · injection h with h; injection h with h1 h2; exact h1.symm
+  generalize (if (L.getD 0 0 == 45) = true then 1 else 0) = first at h
+  cases hpf : parseFloat64 (L.take p) with
+  | none =>
+    simp only [hpf] at h
+    split at h <;> cases h
+  | some bits =>
+    simp only [hpf] at h
+    split at h
     · cases h
+    · injection h with h; injection h with h1 h2; exact h1.symm
 
 theorem core_id_ne {L : List UInt8} {p : Nat} {a m : Bool} {id v : UInt64}
     (h : NumberProofs.core L p a m = some (id, v)) : id ≠ 0 := by
@@ -474,13 +520,150 @@ theorem core_id_ne {L : List UInt8} {p : Nat} {a m : Bool} {id v : UInt64}
   have f1 : mkWord tagFloat 0 ||| wFloatOverflowedInteger ≠ 0 := by decide
   have i0 : mkWord tagInteger 0 ≠ 0 := by decide
   have u0 : mkWord tagUint 0 ≠ 0 := by decide
+  have fp : ∀ tag, tag ≠ 0 → NumberProofs.floatPath L p tag = some (id, v) → id ≠ 0 := by
+    intro tag ht hh; rw [floatPath_id hh]; exact ht
   unfold NumberProofs.core at h
   simp only [] at h
-  repeat' split at h
-  all_goals first
-    | cases h
-    | (injection h with h; injection h with h1 h2; rw [← h1]; assumption)
-    | (rw [floatPath_id h]; assumption)
-    | skip
-  trace_state
-  sorry
+  split at h
+  · cases h
+  · split at h
+    · split at h
+      · cases h
+      · split at h
+        · cases h
+        · cases hpi : parseInt64 (L.take p) with
+          | ok z =>
+            simp only [hpi] at h
+            injection h with h; injection h with h1 h2; rw [← h1]; exact i0
+          | error e1 =>
+            simp only [hpi] at h
+            have t1 : (if (e1 == ConvErr.range) = true then mkWord tagFloat 0 ||| wFloatOverflowedInteger else mkWord tagFloat 0) ≠ 0 := by
+              split <;> assumption
+            split at h
+            · cases hpu : parseUint64 (L.take p) with
+              | ok n =>
+                simp only [hpu] at h
+                injection h with h; injection h with h1 h2; rw [← h1]; exact u0
+              | error e2 =>
+                simp only [hpu] at h
+                refine fp _ ?_ h
+                split
+                · exact f1
+                · exact t1
+            · exact fp _ t1 h
+    · split at h
+      · exact fp _ f1 h
+      · exact fp _ f0 h
+
+theorem parseNumber_id_ne {buf : Bytes} {start : Nat} {id v : UInt64} (h : parseNumber buf start = some (id, v)) : id ≠ 0 := by
+  rw [NumberProofs.parseNumber_eq, NumberProofs.parseNumberL] at h
+  cases hs : NumberProofs.scan (buf.toList.drop start) 0 0 with
+  | none => simp only [hs] at h; cases h
+  | some pf => obtain ⟨p, f⟩ := pf; simp only [hs] at h; exact core_id_ne h
+
+theorem suffix_toList (buf : Bytes) (start : Nat) : (buf.extract start buf.size).toList = buf.toList.drop start := by
+  simp only [Array.toList_extract, Nat.add_zero]
+  apply List.take_of_length_le
+  simp
+
+/-- `parseNumber(buf[start:])`: the interpreter returns the model's two words (`0, 0` for the model's `none`); the tape
+    is untouched; never a panic, never stuck, for any fuel. -/
+theorem parseNumber_sim (buf : Bytes) (start : Nat) (fuel : Nat) (tape : Array UInt64) :
+    ∃ s, runFun goFuns goparseNumber fuel ⟨[("buf", .bytes (buf.extract start buf.size))], tape⟩ =
+      .ret s (enc (parseNumber buf start)) ∧ s.tape = tape := by
+  have := parseNumber_run (buf.extract start buf.size) fuel tape
+  rw [suffix_toList, ← NumberProofs.parseNumber_eq] at this
+  exact this
+
+/-- the model says `some (id, val)` ⇔ the interpreter returns `id, val` with `id ≠ 0` (every tag word is non-zero) -/
+theorem parseNumber_some_iff (buf : Bytes) (start : Nat) (fuel : Nat) (tape : Array UInt64) (id val : UInt64) :
+    parseNumber buf start = some (id, val) ↔
+      id ≠ 0 ∧ ∃ s, runFun goFuns goparseNumber fuel ⟨[("buf", .bytes (buf.extract start buf.size))], tape⟩ =
+        .ret s [.u64 id, .u64 val] := by
+  obtain ⟨s, hs, _⟩ := parseNumber_sim buf start fuel tape
+  constructor
+  · intro h
+    refine ⟨parseNumber_id_ne h, s, ?_⟩
+    rw [hs, h]; rfl
+  · rintro ⟨hid, s', hs'⟩
+    rw [hs] at hs'
+    injection hs' with _ hv
+    cases hp : parseNumber buf start with
+    | none =>
+      rw [hp] at hv
+      simp only [enc] at hv
+      injection hv with h1 _
+      injection h1 with h1
+      exact absurd h1.symm hid
+    | some r =>
+      obtain ⟨a, c⟩ := r
+      rw [hp] at hv
+      simp only [enc] at hv
+      injection hv with h1 h2
+      injection h1 with h1
+      injection h2 with h2 _
+      injection h2 with h2
+      rw [h1, h2]
+
+/-- the model says `none` ⇔ the interpreter returns `0, 0` -/
+theorem parseNumber_none_iff (buf : Bytes) (start : Nat) (fuel : Nat) (tape : Array UInt64) :
+    parseNumber buf start = none ↔
+      ∃ s, runFun goFuns goparseNumber fuel ⟨[("buf", .bytes (buf.extract start buf.size))], tape⟩ =
+        .ret s [.u64 0, .u64 0] := by
+  obtain ⟨s, hs, _⟩ := parseNumber_sim buf start fuel tape
+  constructor
+  · intro h
+    exact ⟨s, by rw [hs, h]; rfl⟩
+  · rintro ⟨s', hs'⟩
+    rw [hs] at hs'
+    injection hs' with _ hv
+    cases hp : parseNumber buf start with
+    | none => rfl
+    | some r =>
+      obtain ⟨a, c⟩ := r
+      rw [hp] at hv
+      simp only [enc] at hv
+      injection hv with h1 _
+      injection h1 with h1
+      exact absurd h1 (parseNumber_id_ne hp)
+
+/-- the interpreter never panics, is never stuck and never runs out of fuel on `parseNumber` -/
+theorem parseNumber_total (b : Bytes) (fuel : Nat) (tape : Array UInt64) :
+    ∃ s vs, runFun goFuns goparseNumber fuel ⟨[("buf", .bytes b)], tape⟩ = .ret s vs := by
+  obtain ⟨s, hs, _⟩ := parseNumber_run b fuel tape
+  exact ⟨s, _, hs⟩
+
+/-- the empty slice: Go does not panic (the loop body never runs, `pos == 0` returns before `buf[0]` is read), and the
+    model says `none` -/
+example : ∃ s, runFun goFuns goparseNumber 0 ⟨[("buf", .bytes #[])], #[]⟩ = .ret s [.u64 0, .u64 0] := by
+  obtain ⟨s, hs, _⟩ := parseNumber_run #[] 0 #[]
+  exact ⟨s, hs⟩
+example (buf : Bytes) : parseNumber buf buf.size = none := by
+  have hd : buf.toList.drop buf.size = [] := by simp
+  rw [NumberProofs.parseNumber_eq, hd]
+  rfl
+
+/-! ## the bundle -/
+
+/-- The hand model of `Model/Number.lean` IS the meaning of the regenerated syntax trees of `isValidTrueAtom`,
+    `isValidFalseAtom`, `isValidNullAtom` and `parseNumber`: for every buffer, every start index (the Go functions get the
+    slice `buf[start:]`), every fuel and every tape. -/
+theorem go_number_source_tie (buf : Bytes) (start : Nat) (fuel : Nat) (tape : Array UInt64) :
+    (∃ s, runFun goFuns goisValidTrueAtom fuel ⟨[("buf", .bytes (buf.extract start buf.size))], tape⟩ =
+        .ret s [.bool (isValidTrueAtom buf start)] ∧ s.tape = tape) ∧
+    (∃ s, runFun goFuns goisValidFalseAtom fuel ⟨[("buf", .bytes (buf.extract start buf.size))], tape⟩ =
+        .ret s [.bool (isValidFalseAtom buf start)] ∧ s.tape = tape) ∧
+    (∃ s, runFun goFuns goisValidNullAtom fuel ⟨[("buf", .bytes (buf.extract start buf.size))], tape⟩ =
+        .ret s [.bool (isValidNullAtom buf start)] ∧ s.tape = tape) ∧
+    (∃ s, runFun goFuns goparseNumber fuel ⟨[("buf", .bytes (buf.extract start buf.size))], tape⟩ =
+        .ret s (enc (parseNumber buf start)) ∧ s.tape = tape) ∧
+    (∀ id val, parseNumber buf start = some (id, val) ↔
+      id ≠ 0 ∧ ∃ s, runFun goFuns goparseNumber fuel ⟨[("buf", .bytes (buf.extract start buf.size))], tape⟩ =
+        .ret s [.u64 id, .u64 val]) ∧
+    (parseNumber buf start = none ↔
+      ∃ s, runFun goFuns goparseNumber fuel ⟨[("buf", .bytes (buf.extract start buf.size))], tape⟩ =
+        .ret s [.u64 0, .u64 0]) :=
+  ⟨trueAtom_sim buf start fuel tape, falseAtom_sim buf start fuel tape, nullAtom_sim buf start fuel tape,
+   parseNumber_sim buf start fuel tape, parseNumber_some_iff buf start fuel tape, parseNumber_none_iff buf start fuel tape⟩
+
+end SJ.GoNumber
